@@ -162,7 +162,10 @@ func judgeAlone(c *hx.Ctx, prop string, g AloneCfg, pred *aloneCase, run AloneRu
 			}
 		}
 	}
-	if herr != nil || int(h.PropCode) != (g.PB*5+g.LP)*9+g.LC || int(h.DictSize) != g.DictCap || h.Size != wantSize {
+	// properties and size must be stated exactly; the dictionary size only has to cover every
+	// match distance (checked below on the decoded operations), so a header that rounds the
+	// capacity up is not an offence
+	if herr != nil || int(h.PropCode) != (g.PB*5+g.LP)*9+g.LC || h.Size != wantSize {
 		c.Violation(sig("header", "hsize", fmt.Sprint(h.Size)), fmt.Sprintf("header says props=%d dict=%d size=%d; configuration implies props=%d dict=%d size=%d", h.PropCode, h.DictSize, h.Size, (g.PB*5+g.LP)*9+g.LC, g.DictCap, wantSize), replay)
 		return
 	}
@@ -281,11 +284,6 @@ func C06(c *hx.Ctx) {
 	})
 	c.Traces += int64(len(cases))
 	// round-trip matrix
-	type rt struct {
-		g     AloneCfg
-		class string
-		n     int
-	}
 	var rts []rt
 	r := rand.New(rand.NewSource(c.Seed))
 	classes := []string{"empty", "one", "text", "zeroprefix", "random", "periodic", "sparse"}
@@ -308,6 +306,7 @@ func C06(c *hx.Ctx) {
 			}
 		}
 	}
+	rts = append(rts, aloneRingFamily(c.Thorough())...)
 	parallel(len(rts), func(i int) {
 		x := rts[i]
 		data := MakeData(x.class, x.n, c.Seed+int64(i))
@@ -339,6 +338,55 @@ func C06(c *hx.Ctx) {
 	validateAloneTraces(c, tr.Bytes(), traced)
 }
 
+func canonicalDict(d int) bool {
+	for n := uint(0); n < 32; n++ {
+		if d == 1<<n || (n > 0 && d == 1<<n+1<<(n-1)) {
+			return true
+		}
+	}
+	return false
+}
+
+// rt is one round-trip case of the classic-LZMA matrix.
+type rt struct {
+	g     AloneCfg
+	class string
+	n     int
+}
+
+// aloneRingFamily: dictionary capacities that are not powers of two, small look-ahead buffers
+// and inputs several times longer than the encoder's ring (dictionary + look-ahead + 1), with
+// matches at every distance around the wrap point and (class xx) a repeat at a distance just
+// below the capacity; both match finders.
+func aloneRingFamily(thorough bool) []rt {
+	var out []rt
+	k := 0
+	for _, d := range []int{4096, 5000, 6000, 7000, 100000} {
+		for _, b := range []int{273, 4096} {
+			for m := 0; m < 2; m++ {
+				for _, class := range []string{"zeros", "lowentropy", "periodic", "text", "xx"} {
+					k++
+					if !thorough && k%2 == 0 && class != "xx" {
+						continue
+					}
+					n := 3*(d+b+1) + k%5
+					if d > 10000 {
+						n = d + b + 5000
+					}
+					if class == "xx" {
+						n = 2 * (d - 7)
+					}
+					if m == 1 && class == "zeros" && n > 40000 {
+						n = 40000 // BinaryTree is quadratic on long runs
+					}
+					out = append(out, rt{AloneCfg{LC: 3, LP: 0, PB: 2, DictCap: d, BufSize: b, Matcher: m}, class, n})
+				}
+			}
+		}
+	}
+	return out
+}
+
 // C07: .lzma interoperates with the reference both ways.
 func C07(c *hx.Ctx) {
 	c.Rule = "writer side: library output for all 75 (lc,lp,pb) with lc+lp<=4 x matchers x dictionary sizes x termination modes x data classes decoded by the reference decoder (and xz-utils when installed), header judged for truthfulness; reader side: streams realised from TLC-generated operation sequences (LzmaGen) in the three termination modes x all 225 property codes x header dictionary sizes incl. < 4096 and non-powers of two x zero-length content, plus the xz-utils corpus and the repository's sample files, read with lzma.Reader for several ReaderConfig.DictCap; non-trivial = generated stream with a rep operation or non-default mode"
@@ -367,6 +415,9 @@ func C07(c *hx.Ctx) {
 			}
 		}
 	}
+	for _, x := range aloneRingFamily(c.Thorough()) {
+		ws = append(ws, wcase{x.g, x.class, x.n})
+	}
 	var forXz [][]byte
 	var forXzPlain bytes.Buffer
 	parallel(len(ws), func(i int) {
@@ -382,7 +433,10 @@ func C07(c *hx.Ctx) {
 		run := runAlone(g, []aloneCall{{Op: "W", N: len(data)}, {Op: "C"}}, data)
 		judgeAlone(c, "C07", g, nil, run, nil, map[string]any{"cfg": g, "class": x.class, "n": len(data), "seed": c.Seed + int64(i)*3})
 		c.Count(1, 1)
-		if run.CloseOK {
+		// xz-utils refuses, by design (xz(1), "LZMA_Alone"), .lzma headers whose dictionary size
+		// is not 2^n or 2^n+2^(n-1); such streams are legal for the LZMA SDK decoder and are
+		// judged by the reference decoder only
+		if run.CloseOK && canonicalDict(g.DictCap) {
 			mu.Lock()
 			forXz = append(forXz, run.Sink)
 			forXzPlain.Write(run.Accepted)
